@@ -773,6 +773,9 @@ func (e *Enc) valueEscapes(v ssa.Value, seen map[ssa.Value]bool) bool {
 					continue
 				}
 			}
+			if fc := e.w.callContract(e.resolveCallee(c).key); fc != nil && (fc.Borrows || fc.Pure) {
+				continue // the callee's contract says it does not retain its pointer arguments
+			}
 			return true
 		default:
 			return true
@@ -815,4 +818,5 @@ func (e *Enc) growAlloc(st *State) {
 	old := e.allocArr(st)
 	n := e.havocKey(st, allocKey)
 	e.assume(fmt.Sprintf("(forall ((r Ref)) (! (=> (select %s r) (select %s r)) :pattern ((select %s r))))", old, n, old))
+	e.assume(fmt.Sprintf("(select %s null)", n))
 }
